@@ -6,3 +6,6 @@ import TddaVerif.Model.Csvw
 import TddaVerif.Generated.Csvw
 import TddaVerif.Drv.C16
 import TddaVerif.Props.C16
+import TddaVerif.Py.Text
+import TddaVerif.Model.CheckStrings
+import TddaVerif.Drv.C04
